@@ -108,3 +108,30 @@ Theorem c01_ingest_evidence : forall js j i,
     (pred_types g ps <> [] -> In (mset_of (pred_types g ps)) (ins info)).
 Proof. exact ingest_evidence. Qed.
 Print Assumptions c01_ingest_evidence.
+
+(** The file presentation (pv2puml -group-by-job: data_ingestion.py:135-149), model V.Pv.Files.cluster; tied to the code
+    by the cluster leg and the file-presentation leg of harness/c03.py. *)
+From V Require Import Pv.Files Pv.FilesProofs.
+
+Theorem c03_cluster_spec : forall (A : Type) (evs : list (positive * A)) (j : positive) (l : list A),
+  In (j, l) (cluster A evs) <-> l = events_of_job A j evs /\ l <> [].
+Proof. exact cluster_spec. Qed.
+Print Assumptions c03_cluster_spec.
+
+Theorem c03_cluster_perm : forall (A : Type) (evs evs' : list (positive * A)), Permutation evs evs' ->
+  Permutation (map fst (cluster A evs)) (map fst (cluster A evs')) /\
+  (forall j, Permutation (events_of_job A j evs) (events_of_job A j evs')).
+Proof. exact cluster_perm. Qed.
+Print Assumptions c03_cluster_perm.
+
+Theorem c03_cluster_stable_perm : forall (A : Type) (evs evs' : list (positive * A)),
+  (forall j, events_of_job A j evs = events_of_job A j evs') -> Permutation (cluster A evs) (cluster A evs').
+Proof. exact cluster_stable_perm. Qed.
+Print Assumptions c03_cluster_stable_perm.
+
+(** grouping consecutive equal job ids is NOT a substitute *)
+Theorem c03_group_consecutive_refuted : exists evs : list (positive * nat),
+  group_consecutive nat evs <> cluster nat evs /\
+  exists evs', Permutation evs evs' /\ group_consecutive nat evs' = cluster nat evs'.
+Proof. exact group_consecutive_contiguous_only_refuted. Qed.
+Print Assumptions c03_group_consecutive_refuted.
